@@ -84,9 +84,8 @@ class QsysShot:
         """Convert results to a dictionary of register bit values."""
         reg_bits: dict[str, list[BitChar]] = {}
 
-        res_dict = self.as_dict()
-        # relies on the fact that dict preserves insertion order
-        for tag, data in res_dict.items():
+        # replay every entry in order, so that later writes override earlier ones
+        for tag, data in self.entries:
             match = re.match(REG_INDEX_PATTERN, tag)
             if match is not None:
                 reg_name, reg_index_str = match.groups()
